@@ -730,6 +730,49 @@ def resize_mutants(buf, max_nodes=400):
     return out
 
 
+def value_mutants(buf, constants, max_nodes=200):
+    """Well-formed encodings in which one 32-octet quantity (an INTEGER of 32/33 content octets, or any 32-octet window at the
+    start / end of an OCTET STRING or BIT STRING body) is replaced by a boundary constant - the group orders and field primes
+    of the library's curves and their neighbours, 0, 1, 2^256-1.  -> [(note, bytes)]"""
+    buf = bytes(buf)
+    try:
+        root = parse(buf, strict_prims=False)
+    except DERError:
+        return []
+    out, seen = [], {buf}
+
+    def add(note, data):
+        if data is not None and data not in seen:
+            seen.add(data)
+            out.append((note, data))
+    for i, (n, d) in enumerate(root.nodes()[:max_nodes]):
+        if n.constructed:
+            continue
+        v = n.value
+        for cname, c in constants:
+            c32 = c.to_bytes(32, 'big')
+            if n.tag == TAG_INTEGER and len(v) in (31, 32, 33):
+                def f(x, c=c):
+                    x.value = _int_body(c)
+                add('%s@%d:int' % (cname, i), _with(root, i, f))
+            elif n.tag in (TAG_OCTET_STRING, TAG_BIT_STRING) and len(v) >= 32:
+                keep = 1 if n.tag == TAG_BIT_STRING else 0
+                body = v[keep:]
+                if len(body) < 32:
+                    continue
+                offs = {0, len(body) - 32}
+                if len(body) in (65, 129):          # 04 || x || y (|| ...)
+                    offs.update(range(1, len(body) - 31, 32))
+                elif len(body) % 32 == 0:
+                    offs.update(range(0, len(body), 32))
+                for o in sorted(offs):
+                    def f(x, o=o, c32=c32):
+                        b = x.value[keep:]
+                        x.value = x.value[:keep] + b[:o] + c32 + b[o + 32:]
+                    add('%s@%d:+%d' % (cname, i, o), _with(root, i, f))
+    return out
+
+
 class _Raw(Node):
     """Verbatim bytes spliced into a constructed value (used for 'trailing-inside')."""
 
